@@ -759,6 +759,32 @@ pub fn drive(prop: &'static str, f: PropFn, a: &Args) -> i32 {
         }
     }
 
+    // 1b. Regression tier: saved shrunk inputs of defects that were repaired (replays/fixed/<prop>-*.json).
+    // A fixed entry suppresses nothing: if one of these fails again it is a violation.
+    let mut regressions = 0u64;
+    if let Ok(rd) = std::fs::read_dir(a.verif_dir.join("replays").join("fixed")) {
+        let mut files: Vec<std::path::PathBuf> = rd.filter_map(|e| e.ok().map(|e| e.path())).collect();
+        files.sort();
+        for path in files {
+            let name = path.file_name().map(|n| n.to_string_lossy().to_string()).unwrap_or_default();
+            if !name.starts_with(&format!("{}-", prop)) || !name.ends_with(".json") {
+                continue;
+            }
+            let (sub, case) = load_replay(&path.to_string_lossy());
+            let ctx = new_ctx(prop, a, Mode::Replay { sub, case });
+            f(&ctx);
+            regressions += 1;
+            for (_s, v) in ctx.replay_verdicts.lock().unwrap().iter() {
+                if let Verdict::Fail(m) = v {
+                    println!("regression input {} fails again: {}", name, truncate(m.clone(), 1500));
+                    println!("VIOLATION property={} replay={}", prop, path.to_string_lossy());
+                    return 1;
+                }
+            }
+        }
+    }
+    let _ = regressions;
+
     // 2. The generated search.
     let ctx = new_ctx(prop, a, Mode::Generate);
     f(&ctx);
